@@ -290,11 +290,17 @@ def run_case(case):
     if me["dom_in"][0] == "R":
         m2["dom_in"] = ("Rb", 6.0)
     elif me["dom_in"][0] == "Rb":
-        m2["dom_in"] = ("Rb", min(6.0, me["dom_in"][1]))
+        # bounded-R families (Sigmoid: 12 / temperature) keep their own bound: saturation near it is where single
+        # precision loses 1 - u, and where formulas that go through the saturated output fail
+        m2["dom_in"] = ("Rb", min(24.0, me["dom_in"][1]))
     m2["special"] = [s for s in me["special"] if abs(s) <= 12.0]
     # kinks (spline knots of piecewise-linear maps, tail junctions, cut points): float32 and float64 may legitimately
     # fall on different sides -> exact structured points only for the smooth families
     x = zoo.sample_inputs(m2, B, seed + 1, structured=False if "kink" in me["tags"] else "many").float()
+    if me["dom_in"][0] == "Rb" and "sigmoid_eps" in me["tags"] and B >= 2:
+        bnd = min(24.0, me["dom_in"][1])
+        x[0].reshape(-1)[0] = 0.97 * bnd
+        x[1].reshape(-1)[-1] = -0.97 * bnd
     ctx = zoo.sample_context(me, B, seed + 2)
     ctx = ctx.float() if ctx is not None else None
     st = compare_items(r, label, "forward", model, m64, x, ctx, det, me)
